@@ -256,4 +256,77 @@ theorem set_attrpath_new_refines (d : Doc) (hw : WF d) (p : Text) (seg0 seg1 : T
         rw [specSetK_node v _ _ seg0 (middle ++ [final]) (by simp) hl', hY]
         rfl
 
+theorem rm_attrpath_refines (d : Doc) (hw : WF d) (hcoh : Coh d.target) (p : Text) (segs : List Text)
+    (hp : formatNPath currentAnchor p = .ok segs)
+    (hleaf : (findAttrpathLeaf d.target segs).isSome = true) :
+    ∃ d', removeValue p d = (.ok (), d') ∧
+      specRemove (denote d.target) segs true = some (denote d'.target) := by
+  obtain ⟨c, vs, o, m, r, ht⟩ := (isSet_iff _).mp hw.isSet
+  cases hl : findAttrpathLeaf d.target segs with
+  | none => simp [hl] at hleaf
+  | some leaf =>
+    obtain ⟨st, par0, hwalk, hlast⟩ := findAttrpathLeaf_some _ _ _ hl
+    obtain ⟨hlen, hch⟩ := walk_chain _ _ _ _ _ hw.keys hw.isSet hwalk
+    have hne : segs ≠ [] := by intro e; simp [e] at hlen
+    obtain ⟨par, lid, final, val, bf, af, h1, h2, h3, h4, h5⟩ := chain_last false segs _ st hne hch hw.isSet
+    rw [hlast] at h1
+    injection h1 with h1; injection h1 with h1a h1b
+    subst h1a h1b
+    obtain ⟨tr, htl, hloc, hsti⟩ := chain_ids segs d.target st hne hch hw.isSet hw.fam
+    obtain ⟨pc, pvs, po, pm, pr, rfl⟩ := (isSet_iff par0).mp h4
+    simp only [setValues] at h5
+    -- the state after the two removals
+    have hT1 := denote_del_at d.target hw.ids hw.keys segs.dropLast pc pvs po pm pr h3 final _ h5 lid rfl _
+      (eraseV_isDel lid)
+    have htp := treeAt_denote _ d.target _ hw.keys h3
+    have hpn := nodup_treeAt _ _ _ htp hw.keys
+    simp only [denote_set, AttrTree.nodup_node] at hpn
+    generalize hd2 : ((d.updSet pc (eraseV lid)).updSet c (entF lid)) = d2
+    have ht2 : d2.target = updSet c (entF lid) (updSet pc (eraseV lid) d.target) := by rw [← hd2]; rfl
+    have hden2 : denote d2.target =
+        graft segs.dropLast (.node (Kids.erase final (denoteL pvs))) (denote d.target) := by
+      rw [ht2, (denote_updSet_orderOnly c _ (entF_orderOnly lid) _).1, hT1]
+    have hsetT1 : (updSet pc (eraseV lid) d.target).isSet = true :=
+      isSet_updSet_shrinks pc _ (eraseV_shrinks lid) _ hw.isSet
+    obtain ⟨c1, vs1, o1, m1, r1, hT1e⟩ := (isSet_iff _).mp hsetT1
+    have hc1 : c = c1 := by
+      have := setSid_updSet_shrinks pc _ (eraseV_shrinks lid) d.target
+      rw [hT1e, ht] at this; simpa [setSid?] using this.symm
+    subst hc1
+    have hloc2 : Loc d2.target segs.dropLast tr := by
+      have hl1 := Loc_updSet_end pc _ (eraseV_shrinks lid) segs.dropLast d.target _ tr hw.ids hloc h3 rfl
+      rw [ht2, hT1e]
+      rw [hT1e] at hl1
+      refine Loc_top_congr _ _ _ _ ?_ ?_ hl1
+      · simp [updSet, entF, setSid?]
+      · simp [updSet, entF, setValues]
+    obtain ⟨d', e1, _, _, hd'⟩ := prune_loop st.dropLast.reverse tr.reverse segs.dropLast d2 hsti
+      (by simp [htl])
+      (by rw [ht2]; exact (hw.ids.sublist (vIds_updSet_shrinks pc _ (eraseV_shrinks lid) _)).sublist
+            (vIds_updSet_shrinks c _ (entF_shrinks lid) _))
+      (by unfold KeysOK; rw [hden2]
+          exact nodup_graft _ _ _ _ htp hw.keys (by simpa using AttrTree.nodupL_erase final _ hpn))
+      (by rw [ht2]; exact coh_updSet c _ (entF_shrinks lid) _ (coh_updSet pc _ (eraseV_shrinks lid) _ hcoh))
+      (by rw [← hd2]; simp [Doc.updSet, hw.scratch])
+      (by rw [ht2]; exact isSet_updSet_shrinks c _ (entF_shrinks lid) _ hsetT1)
+      (by simpa using hloc2)
+    refine ⟨d', ?_, ?_⟩
+    · rw [removeValue_unscoped p d hw.editable (formatNPath_unscoped p _ hp)]
+      cases hs : segs with
+      | nil => exact absurd hs hne
+      | cons s0 sr =>
+        rw [hs] at hp hl
+        simp only [removeValueInAttrset, hp, hl, Option.isSome_some, if_true]
+        rw [← hs, removeAttrpathValue_eq d.target segs st _ _ c pc lid d (walk_rr _ _ _ _ hwalk) hlast
+          (by rw [ht]; rfl) rfl rfl, hd2]
+        exact e1
+    · rw [hd', hden2, ht]
+      rw [ht] at htp
+      simp only [denote_set] at htp ⊢
+      conv => lhs; rw [h2]
+      simp only [specRemove]
+      rw [specRemoveK_prune final segs.dropLast _ _ htp (by
+        rw [lookup_of_findBinding pvs final lid false val bf af hpn h5]; rfl)]
+      rfl
+
 end Nima.C05
